@@ -11,7 +11,9 @@ RULE = ('Generated material cards (1-12 entries, Z in 1..118, A in {000, '
         '1..299}, ZAIDs with and without library suffix, keyword entries such '
         'as nlib=70c / gas=1 interleaved, fractions all positive or all '
         'negative in assorted spellings, plus mixed-sign cards) used by slab '
-        'cells with mass (negative) or atom (positive) densities. Oracle: an '
+        'cells with mass (negative) or atom (positive) densities, up to three '
+        'cells per card, some repeating a density in another spelling of the '
+        'same number. Oracle: an '
         'independent periodic table; expected block = nuclides in order as '
         'SYMBOL+A or SYMBOL-NAT; mass density -> DENSITY |rho| with |fraction| '
         'as written and NB_ATOM iff the card is positive; atom density -> '
